@@ -179,7 +179,8 @@ type frame struct {
 	id       int
 	depth    int
 	bodyOf   *Loop // when summarising a loop body: the loop
-	stopAtFn bool
+	stopAt   *ssa.BasicBlock // preState: stop when this block is reached
+	onStop   func(*state)
 }
 
 type cont func(st *state, ret []*Val, ri *ssa.Return, end string)
@@ -203,16 +204,84 @@ func (s *Summ) Function(fn *ssa.Function) ([]*PathSum, string) {
 // loop header and end when control returns to the header ("continue"), leaves the loop
 // ("exit:<block>") or returns.
 func (s *Summ) LoopBody(fn *ssa.Function, l *Loop) ([]*PathSum, string) {
+	st := s.preState(fn, l)
 	s.paths = nil
 	s.cut = ""
-	st := newState()
-	s.bindParams(fn, st, nil)
+	if st == nil {
+		st = newState()
+		s.bindParams(fn, st, nil)
+	}
 	st.onstack[fn] = true
 	fr := &frame{fn: fn, bodyOf: l}
 	s.execBlock(fr, l.Header, nil, st, func(st *state, ret []*Val, ri *ssa.Return, end string) {
 		s.emit(st, ret, ri, end)
 	})
 	return s.paths, s.cut
+}
+
+// preState evaluates the code before loop l when exactly one path leads from the function
+// entry to the loop header, so that values computed before the loop keep their meaning
+// inside the body summary. What the loop itself may write is forgotten (an arbitrary
+// iteration is summarised).
+func (s *Summ) preState(fn *ssa.Function, l *Loop) *state {
+	// only for outermost loops reached without passing another loop
+	var got []*state
+	s.paths = nil
+	s.cut = ""
+	st := newState()
+	s.bindParams(fn, st, nil)
+	st.onstack[fn] = true
+	fr := &frame{fn: fn, stopAt: l.Header, onStop: func(x *state) { got = append(got, x) }}
+	s.execBlock(fr, fn.Blocks[0], nil, st, func(*state, []*Val, *ssa.Return, string) {})
+	s.paths = nil
+	cut := s.cut
+	s.cut = ""
+	if cut != "" || len(got) != 1 {
+		return nil
+	}
+	pre := got[0]
+	pre.conds = nil
+	pre.events = nil
+	pre.blocks = nil
+	pre.onstack = map[*ssa.Function]bool{}
+	// forget what the loop writes
+	for blk := range l.Blocks {
+		for _, in := range blk.Instrs {
+			switch x := in.(type) {
+			case *ssa.Store:
+				if _, isAlloc := x.Addr.(*ssa.Alloc); isAlloc {
+					a := s.val(pre, x.Addr)
+					if a.K == KAddr {
+						delete(pre.store, a.S)
+					}
+					continue
+				}
+				s.forgetKey(pre, accessKey(x.Addr))
+			case *ssa.MapUpdate:
+				s.forgetKey(pre, "map:"+typeShort(x.Map.Type()))
+			case ssa.CallInstruction:
+				for _, t := range s.Ix.targets(fn, x.Common()) {
+					if ti := s.Ix.Info[t]; ti != nil {
+						for kx := range ti.TWrites {
+							s.forgetKey(pre, kx)
+						}
+					}
+				}
+			}
+		}
+	}
+	pre.epoch = 0
+	pre.written = map[string]bool{}
+	pre.havoc = map[string]int{}
+	return pre
+}
+
+func (s *Summ) forgetKey(st *state, key string) {
+	for loc, fk := range st.lockey {
+		if fk == key {
+			delete(st.store, loc)
+		}
+	}
 }
 
 func (s *Summ) emit(st *state, ret []*Val, ri *ssa.Return, end string) {
@@ -341,6 +410,12 @@ func (s *Summ) execBlock(fr *frame, b *ssa.BasicBlock, from *ssa.BasicBlock, st 
 		return
 	}
 	loops := s.loops(fr.fn)
+	if fr.stopAt != nil && fr.depth == 0 && b == fr.stopAt {
+		if from == nil || !innermostContains(loops, fr.stopAt, from) {
+			fr.onStop(st)
+		}
+		return
+	}
 	// loop-body mode: returning to the header or leaving the loop ends the path
 	if fr.bodyOf != nil && fr.depth == 0 {
 		l := fr.bodyOf
@@ -410,6 +485,16 @@ func (s *Summ) execBlock(fr *frame, b *ssa.BasicBlock, from *ssa.BasicBlock, st 
 	}
 	st.blocks = append(st.blocks, blockID(fr, b))
 	s.execFrom(fr, b, 0, from, st, k)
+}
+
+// innermostContains: is block x inside the loop headed by header?
+func innermostContains(loops []*Loop, header, x *ssa.BasicBlock) bool {
+	for _, l := range loops {
+		if l.Header == header && l.Blocks[x] {
+			return true
+		}
+	}
+	return false
 }
 
 func blockID(fr *frame, b *ssa.BasicBlock) int { return fr.id*100000 + b.Index }
